@@ -4105,8 +4105,8 @@ void indent_text()
                   // get pc
                   LOG_FMT(LINDPC, "%s(%d): Text() is '%s', (frm.at(frm_size - 1).pc)->GetType() is %s\n",
                           __func__, __LINE__, (frm.at(frm_size - 1).GetOpenChunk())->Text(), get_token_name((frm.at(frm_size - 1).GetOpenChunk())->GetType()));
-                  // get the token before
-                  const size_t temp_ttidx = frm_size - 2;
+                  // get the token before (there is none when the member operator is the first token of the file)
+                  const size_t temp_ttidx = (frm_size >= 2) ? frm_size - 2 : 0;
 
                   if (temp_ttidx == 0)
                   {
